@@ -9,7 +9,7 @@ number equals the line's position in the doctest (or in the file for file-relati
 import re
 
 from xmc.core import Spec
-from models import progs
+from models import progs, harness
 from checks import c01
 
 LEVEL = 'model_checking'
@@ -158,6 +158,41 @@ class FormatSpec(c01.ProgSpec):
                                               'msg': 'docstring at line %d: %r displayed with number %s; that position holds %r' % (
                                                   L, mm.group(2), mm.group(1), doclines[idx] if 0 <= idx < len(doclines) else None)})
                                 break
+        # (g) the docstring as that of the *second* documented function of a module file, collected with the module
+        #     (parse_doctestables): file-relative numbers name the lines of the file
+        if "'''" not in text:
+            import os
+            q = "'''"
+            body = '\n'.join(('    ' + l) if l.strip() else '' for l in text.expandtabs().split('\n'))
+            msrc = ('def first():\n    ' + q + '\n    >>> q1 = 1\n    >>> q1\n    1\n    ' + q + '\n    return 0\n\n\n'
+                    'def second():\n    r' + q + '\n' + body + '\n    ' + q + '\n    return 0\n')
+            flines = msrc.split('\n')
+            with harness.scratch_dir('c18m') as d:
+                modname = harness.unique_modname('m18', msrc)
+                mp = os.path.join(d, modname + '.py')
+                with open(mp, 'w') as f:
+                    f.write(msrc)
+                try:
+                    import warnings
+                    with warnings.catch_warnings():
+                        warnings.simplefilter('ignore')
+                        exs2 = [e for e in core.parse_doctestables(mp, style='freeform', analysis='static') if e.callname == 'second']
+                    for e in exs2:
+                        fl = e.format_src(linenos=True, colored=False, want=True, offset_linenos=True, prefix=True)
+                        n += 1
+                        for line in fl.split('\n'):
+                            mm = NUM_RE.match(line)
+                            if mm and mm.group(2).startswith(('>>>', '...')):
+                                num = int(mm.group(1))
+                                if not (0 < num <= len(flines)) or flines[num - 1].strip() != mm.group(2).strip():
+                                    atoms.append({'sig': 'linenos:module:file-relative',
+                                                  'msg': 'second docstring of a module: %r displayed with number %d; that line of the file holds %r' % (
+                                                      mm.group(2), num, flines[num - 1] if 0 < num <= len(flines) else None)})
+                                    break
+                except Exception as ex:
+                    atoms.append({'sig': 'linenos:module:raises:' + type(ex).__name__, 'msg': repr(ex)})
+                finally:
+                    harness.forget_modules(modname)
         seen = set()
         uniq = []
         for a in atoms:
